@@ -498,6 +498,19 @@ func encodeRefMessage(rt *rapid.T, name string, rev int) *ref.Enc {
 		if rev < ref.RevSettingsAsStrings {
 			rev = ref.RevSettingsAsStrings
 		}
+		// the lists have no length on the wire: now and then a long one
+		if rapid.IntRange(0, 5).Draw(rt, "long-list") == 0 {
+			n := rapid.SampledFrom([]int{300, 999, 1000, 1001, 1500}).Draw(rt, "list-length")
+			if rapid.Bool().Draw(rt, "of-parameters") {
+				for i := 0; i < n; i++ {
+					q.Params = append(q.Params, ref.Setting{Key: fmt.Sprintf("p%d", i), Value: "v", Flags: 2})
+				}
+			} else {
+				for i := 0; i < n; i++ {
+					q.Settings = append(q.Settings, ref.Setting{Key: fmt.Sprintf("s%d", i), Value: "1", Flags: uint64(i % 2)})
+				}
+			}
+		}
 		ref.EncodeQuery(e, q, rev)
 		e.B = e.B[1:]
 		for j := range e.Fields {
